@@ -31,6 +31,7 @@ type specEnv struct {
 	resLoc  map[int]*Loc // results that are pointers to a cell allocated by the function
 	varLoc  map[string]*Loc // variables whose current value lives in memory (map-typed parameters)
 	noUnfold bool
+	visited Term // ghost set of keys already visited by the enclosing map range
 	bound   map[string]string // bound variable (SMT name) -> sort, for lemmas emitted under quantifiers
 }
 
@@ -699,6 +700,15 @@ func (e *enc) specCall(env *specEnv, n *SCall) (tval, error) {
 			return tval{}, fmt.Errorf("SeqEq needs two slices of the same type")
 		}
 		return bl(e.seqEq(as[0], as[1]))
+	case "Visited":
+		if env.visited == "" {
+			return tval{}, fmt.Errorf("Visited(k) is only available in invariants of a loop that ranges over a map")
+		}
+		as, err := args()
+		if err != nil {
+			return tval{}, err
+		}
+		return bl(fmt.Sprintf("(select %s %s)", env.visited, as[0].t))
 	case "GetText", "GetLine", "GetColumn", "GetTokenType", "GetChildCount":
 		as, err := args()
 		if err != nil {
